@@ -367,7 +367,23 @@ func vfC14Run(t *testing.T, res *vfResult, c vfC14Case) {
 	// bytes key the PRF identically (a truncation that happens to drop a 0x00 is no mismatch)
 	secretsAgree := len(cPre.Secret) > 0 && bytes.Equal(bytes.TrimRight(cPre.Secret, "\x00"), bytes.TrimRight(sPre.Secret, "\x00"))
 	second := vfC14Cfg(c.Cfg, c.Second)
+	// a store may hand out its own slices (a plain in-memory map does); what it handed out is the application's data
+	var lent, lentCopy []byte
+	if c.Manip == "server-forgot" || c.Manip == "client-id-unknown" || c.Manip == "untouched" {
+		cS.mu.Lock()
+		cS.Alias = true
+		lent = cS.m[vfC14ClientKey].Secret
+		lentCopy = append([]byte(nil), lent...)
+		cS.mu.Unlock()
+	}
 	c2 := vfC14Connect(second, cS, sS, install, true)
+	if lent != nil && !bytes.Equal(lent, lentCopy) {
+		res.Violate("C14:stored-secret-modified-in-place:"+c.Manip,
+			fmt.Sprintf("%s: the master secret the client's store handed to the library (%s...) reads %s... after the connection: the library wrote into the store's memory, the session would next be offered with another secret than the one stored", c.ID(), vfHex(lentCopy[:4]), vfHex(lent[:4])), replay)
+	}
+	cS.mu.Lock()
+	cS.Alias = false
+	cS.mu.Unlock()
 	res.NonTrivial(c.ID())
 	res.Count("second_connections_judged", 1)
 	abbreviated := c2.HasSH && !c2.HasSHD && !c2.HasCert
@@ -828,6 +844,36 @@ func vfC14FatalOnImported(t *testing.T, res *vfResult, cfgName, victim string) {
 	w.close()
 }
 
+// vfC14AfterClientCertificate: the first connection authenticated the client by certificate (requested, required or
+// verified). An abbreviated handshake carries no certificate, so resuming that session would let the second connection
+// past the server's client-authentication policy unseen: the second connection is a full handshake (the server does
+// not keep such a session), or fails.
+func vfC14AfterClientCertificate(t *testing.T, res *vfResult, policy ClientAuthType) {
+	res.Eval(1)
+	cS, sS := vfNewMemStore("c"), vfNewMemStore("s")
+	cfg := vfC14Cfg("ecdsa", "same")
+	cfg.ClientAuth, cfg.ClientCert = policy, true
+	cfg.Verify = policy >= VerifyClientCertIfGiven
+	id := fmt.Sprintf("after-client-certificate|policy%d", policy)
+	c1 := vfC14Connect(cfg, cS, sS, nil, false)
+	if !c1.CompletedBoth {
+		res.Count("after_client_certificate_setup_failed", 1)
+		res.Seen("after_client_certificate_failures", id+": "+vfErrNorm(c1.CErr)+" / "+vfErrNorm(c1.SErr))
+
+		return
+	}
+	c2 := vfC14Connect(cfg, cS, sS, nil, true)
+	res.NonTrivial(id)
+	res.Count("after_client_certificate_cases", 1)
+	abbreviated := c2.HasSH && !c2.HasSHD && !c2.HasCert
+	res.Seen("after_client_certificate_outcomes", fmt.Sprintf("%s: completed=%v abbreviated=%v server store entries=%d", id, c2.CompletedBoth, abbreviated, sS.Len()))
+	if c2.CompletedBoth && abbreviated {
+		res.Violate(fmt.Sprintf("C14:abbreviated-handshake-after-client-certificate:policy%d", policy),
+			fmt.Sprintf("%s: the first connection presented a client certificate; the second one was resumed (session %x) without any certificate exchange although the server's policy asks for one on every connection", id, c2.AnsweredSID),
+			map[string]any{"after_client_cert": int(policy)})
+	}
+}
+
 func vfC14Cases() []vfC14Case {
 	var out []vfC14Case
 	idx := 0
@@ -910,6 +956,8 @@ func TestVF_C14(t *testing.T) {
 	vfBubbles(t, len(fes), func(t *testing.T, i int) {
 		vfC14FatalOnEstablished(t, res, fes[i].cfg, fes[i].victim, fes[i].dual, fes[i].migrate)
 	})
+	pols := []ClientAuthType{RequestClientCert, RequireAnyClientCert, VerifyClientCertIfGiven, RequireAndVerifyClientCert}
+	vfBubbles(t, len(pols), func(t *testing.T, i int) { vfC14AfterClientCertificate(t, res, pols[i]) })
 	fis := [][2]string{{"ecdsa", "c"}, {"ecdsa", "s"}, {"ecdsa-cid", "c"}, {"ecdsa-cid", "s"}, {"psk", "s"}}
 	vfBubbles(t, len(fis), func(t *testing.T, i int) { vfC14FatalOnImported(t, res, fis[i][0], fis[i][1]) })
 	res.Floor("fatal_alerts_provoked_on_imported_connections", 3)
